@@ -156,6 +156,9 @@ class Transformer(NamedTuple):
         for contract in func.contracts:
             if contract.category not in cats:
                 continue
+            if contract.inherited:
+                # the decorator is on the method of the base class
+                continue
             yield from self._remove_contract(func, contract)
             if contract.category == Category.PURE:
                 yield InsertContract(
@@ -234,6 +237,9 @@ class Transformer(NamedTuple):
             return
         for contract in func.contracts:
             if contract.category not in cats:
+                continue
+            if contract.inherited:
+                # the decorator is on the method of the base class
                 continue
             if Remove(contract.line) in self.mutations:
                 # `_mutations_excs` already replaced this `@deal.pure`
@@ -369,6 +375,11 @@ class Transformer(NamedTuple):
             # some Python versions point to the first decorator, some to `def`
             if decorator.lineno < func.line:
                 return func.line  # pragma: no cover
+            if isinstance(decorator, astroid.Attribute) and decorator.as_string() == 'deal.inherit':
+                # contracts above `deal.inherit` would wrap the descriptor
+                # and switch the inherited contracts off
+                line = decorator.lineno + 1
+                continue
             if not isinstance(decorator, astroid.Name):
                 continue
             if decorator.name in {'staticmethod', 'classmethod'}:
